@@ -606,6 +606,19 @@ InsertSorted(x, ys) == IF ys = <<>> THEN <<x>> ELSE IF x.n < Head(ys).n THEN <<x
                        ELSE <<Head(ys)>> \o InsertSorted(x, Tail(ys))
 SortInts(xs) == IF xs = <<>> THEN <<>> ELSE InsertSorted(Head(xs), SortInts(Tail(xs)))
 
+\* numbers of mixed kinds (int, bool, exact float): sorted() is stable, min() / max() return the FIRST minimal /
+\* maximal element (1 and 1.0 are equal but print differently)
+AllReal(xs) == \A i \in 1..Len(xs) : IsReal(xs[i]) /\ Abs(RN(xs[i])) <= 1000000
+RECURSIVE InsertStable(_, _), SortRealsAcc(_, _)
+InsertStable(x, acc) == IF acc = <<>> THEN <<x>>
+                        ELSE IF FCmp("lt", x, Head(acc)) THEN <<x>> \o acc
+                        ELSE <<Head(acc)>> \o InsertStable(x, Tail(acc))
+SortRealsAcc(xs, acc) == IF xs = <<>> THEN acc ELSE SortRealsAcc(Tail(xs), InsertStable(Head(xs), acc))
+SortReals(xs) == SortRealsAcc(xs, <<>>)
+FirstExtreme(xs, op) ==          \* op = "lteq": first minimum; "gteq": first maximum
+    LET best(i) == \A j \in 1..Len(xs) : FCmp(op, xs[i], xs[j]) IN
+    xs[CHOOSE i \in 1..Len(xs) : best(i) /\ \A k \in 1..(i - 1) : ~best(k)]
+
 \* sep.join(items) with every part already a string value
 JoinWith(parts, sep, i, acc) ==
     IF i > Len(parts) THEN acc
@@ -674,9 +687,12 @@ ApplyFilter(n, v, args, kw, s, E) ==
            IF v.t = "list" /\ AllInt(v.v) /\ args = <<>> /\ kw.n = <<>> THEN
                IF v.v = <<>> THEN R(VUndef([k |-> "hint", n |-> "No aggregated item, sequence was empty."]), s)
                ELSE LET so == SortInts(v.v) IN R(IF n = "min" THEN so[1] ELSE so[Len(so)], s)
+           ELSE IF v.t = "list" /\ ~IsRange(v) /\ v.v # <<>> /\ AllReal(v.v) /\ args = <<>> /\ kw.n = <<>> THEN
+               R(FirstExtreme(v.v, IF n = "min" THEN "lteq" ELSE "gteq"), s)
            ELSE Fail(s, "EXCLUDED")
       [] n = "sort" ->
            IF v.t = "list" /\ AllInt(v.v) /\ args = <<>> /\ kw.n = <<>> THEN R(VList(SortInts(v.v)), s)
+           ELSE IF v.t = "list" /\ ~IsRange(v) /\ AllReal(v.v) /\ args = <<>> /\ kw.n = <<>> THEN R(VList(SortReals(v.v)), s)
            ELSE Fail(s, "EXCLUDED")
       [] n = "abs" ->
            IF IsNum(v) THEN R(VInt(IF NumOf(v) < 0 THEN 0 - NumOf(v) ELSE NumOf(v)), s)
